@@ -17,8 +17,15 @@
                     3000+q  step / t>=0 bookkeeping differs from the flag model
                     4000+l  law l does not hold for the model inverse
                     5000    Analysis causal flag differs from the model
+     sw_items    verdict of one convert_IVP experiment (instrumented run of the real method):
+                    6000  final switch configuration differs from the specification
+                    6001  the sequence of initialize(before, T) calls (configuration of `before`, T)
+                          differs from the specification's hand-overs
+                    6002  switching_times() differs from the sorted, duplicate-free activation times
+                    6003  replace_switches(t) differs from the model built with the source-extracted comparison
+                    6004  replace_switches_before(t) differs from the model built with the source-extracted comparison
    All evaluation is by vm_compute in the generated cases_k.v. *)
-Require Import LT.FieldSec LT.PolyQ LT.QcI LT.ExpPoly LT.ILT LT.ILTCorr LT.TimeDom.
+Require Import LT.FieldSec LT.PolyQ LT.QcI LT.ExpPoly LT.ILT LT.ILTCorr LT.TimeDom LT.TimeDomSwitch.
 Local Open Scope F_scope.
 
 Notation sigI := (sig KI).
@@ -142,3 +149,28 @@ Definition fail_cases (cases : list (nat * list nat)) : list (nat * list nat) :=
 (* typed constructors for the generated case files *)
 Definition mkcert (T : Qc) (Bp Ap Q : list KI) (ts : list (KI * KI * nat)) : cert := (T, (Bp, Ap), (Q, ts)).
 Definition mkd (T : Qc) (sg : list KI) (rg : list (KI * nat * KI)) : Qc * sigI := (T, Sig sg rg).
+
+(* ---- switched circuits -------------------------------------------------------------------------------------- *)
+Fixpoint qinsert (x : Qc) (l : list Qc) : list Qc :=
+  match l with [] => [x] | y :: r => if qlt x y then x :: l else if qc_eqb x y then l else y :: qinsert x r end.
+(* Netlist.switching_times: sorted list of the distinct activation times *)
+Definition switching_times (sws : list sw) : list Qc := fold_right (fun s acc => qinsert (sw_time s) acc) [] sws.
+Fixpoint bools_eqb (a b : list bool) : bool :=
+  match a, b with [], [] => true | x :: a', y :: b' => Bool.eqb x y && bools_eqb a' b' | _, _ => false end.
+Fixpoint qlist_eqb' (a b : list Qc) : bool :=
+  match a, b with [], [] => true | x :: a', y :: b' => qc_eqb x y && qlist_eqb' a' b' | _, _ => false end.
+Fixpoint trace_eqb (a b : list (list bool * Qc)) : bool :=
+  match a, b with
+  | [], [] => true
+  | (c, T) :: a', (c', T') :: b' => bools_eqb c c' && qc_eqb T T' && trace_eqb a' b'
+  | _, _ => false end.
+Definition sw_items (before_cmp after_cmp : Qc -> Qc -> bool) (closed_m : swkind -> bool -> bool)
+    (sws : list sw) (t : Qc) (obs_times : list Qc) (obs_final : list bool) (obs_trace : list (list bool * Qc))
+    (obs_after obs_before : list bool) : list nat :=
+  let times := switching_times sws in
+  let code_repl cmp := map (fun s => closed_m (sw_kind s) (cmp t (sw_time s))) sws in
+  (if bools_eqb (final_cfg sws times t) obs_final then [] else [6000%nat]) ++
+  (if trace_eqb (trace_spec sws times t) obs_trace then [] else [6001%nat]) ++
+  (if qlist_eqb' times obs_times then [] else [6002%nat]) ++
+  (if bools_eqb (code_repl after_cmp) obs_after then [] else [6003%nat]) ++
+  (if bools_eqb (code_repl before_cmp) obs_before then [] else [6004%nat]).
